@@ -122,14 +122,14 @@ theorem getLast_inner (tagOf : Rec → Nat) (m : Msg) (inner : List Msg) :
 theorem item_records (c : Crcs) (tagOf : Rec → Nat) (d : Desc) :
     (d.item c tagOf).records = d.group.2.map (fun r => (r.offset, tagOf r)) := by
   cases d with
-  | batch f xs => simp [Desc.item, Desc.group, Item.records, recToks, recOfV2]
+  | batch f xs => simp [Desc.item, Desc.group, Item.records, recToks, recOfV2, recOfV2c]
   | msg m => simp [Desc.item, Desc.group, Item.records, recOfMsg]
   | wrapper m inner =>
     simp only [Desc.item, Desc.group, Item.records, wrapperBase, getLast_inner, wrapRecs, List.map_map]
     simp only [innerToks, List.map_map]
     apply List.map_congr_left
     intro x _
-    simp only [Function.comp, recOfMsg, Prod.mk.injEq, and_true]
+    simp only [Function.comp, stamp_offset, recOfMsg, Prod.mk.injEq, and_true]
     omega
 
 theorem allRecords_descs (c : Crcs) (tagOf : Rec → Nat) (ds : List Desc) :
